@@ -375,7 +375,7 @@ func childMain(p *Prop, tier string, seed int64, from, to int, witness, outPath 
 	out, err := os.OpenFile(outPath, os.O_CREATE|os.O_WRONLY|os.O_APPEND, 0o644)
 	if err != nil {
 		fmt.Fprintln(os.Stderr, "child: cannot open out:", err)
-		return 2
+		return 97
 	}
 	defer out.Close()
 	enc := json.NewEncoder(out)
@@ -442,7 +442,7 @@ func childMain(p *Prop, tier string, seed int64, from, to int, witness, outPath 
 		w := p.Witnesses[witness]
 		if w == nil {
 			fmt.Fprintln(os.Stderr, "child: no such witness", witness)
-			return 2
+			return 97
 		}
 		c := newCase(p, tier, seed, -1)
 		fmt.Fprintf(os.Stderr, "CASE witness %s\n", witness)
